@@ -82,7 +82,7 @@ def check_zero_tests(rep, g, ev, label):
     scope = {}
     for (fid, bb) in polls:
         fr = g.frames[fid]
-        while fr.parent is not None and fr.kind in ('call', 'pollfn', 'closure'):
+        while fr.parent is not None and fr.kind in ('call', 'pollfn', 'closure', 'closurecall'):
             r = g._return_expr(fr, 0)
             if r is not None and common.mentions_site(r, fid, bb):
                 fr = fr.parent
